@@ -7,7 +7,7 @@
   sed -i 's#=> /repo#=> /var/tmp/mut-c07m#' /var/tmp/mm.mod
   python3 /verif/harness/c07mat/mutants.py [M3 M17 ...]
 
-Every mutant must be reported KILLED (43 of 43 when this file was written).
+Every mutant must be reported KILLED (54 of 54 when this file was written).
 """
 import subprocess, shutil, sys, os
 MUT='/var/tmp/mut-c07m'; REPO='/repo'
@@ -54,6 +54,19 @@ muts = [
  ("M42 Cholesky.ToSym without size check", "mat/cholesky.go", "		n2 := dst.SymmetricDim()\n		if n != n2 {\n			panic(ErrShape)\n		}", "		n2 := dst.SymmetricDim()\n		_ = n2", ""),
  ("M43 SymDense.sliceSym accepts k == cap+1", "mat/symmetric.go", "if i < 0 || sz < i || k < i || sz < k {", "if i < 0 || sz < i || k < i || sz+1 < k {", ""),
  ("M44 VecDense.MulVec reuses before checking", "mat/vector.go", "	r, c := a.Dims()\n	br, bc := b.Dims()\n	if c != br || bc != 1 {\n		panic(ErrShape)\n	}\n", "	r, c := a.Dims()\n	br, bc := b.Dims()\n	v.reuseAsNonZeroed(r)\n	if c != br || bc != 1 {\n		panic(ErrShape)\n	}\n", ""),
+ # view-capacity mutants (TestMatViewHistory); V1 is the independently written change3
+ ("V1 CDense.slice capCols -= i (change3)","mat/cdense.go","	t.capCols -= j\n","	t.capCols -= i\n", ""),
+ ("V2 Dense.slice capRows -= j","mat/dense.go","	t.capRows -= i\n","	t.capRows -= j\n", ""),
+ ("V3 SymDense.sliceSym keeps the parent's cap","mat/symmetric.go","	v.cap = s.cap - i\n","	v.cap = s.cap\n", ""),
+ ("V4 TriDense.sliceTri keeps the parent's cap","mat/triangular.go","	v.cap = t.cap - i\n","	v.cap = t.cap\n", ""),
+ ("V5 Dense.Grow in place one row too far","mat/dense.go","	case r > m.capRows || c > m.capCols:\n		cr := max(r, m.capRows)","	case r > m.capRows+1 || c > m.capCols:\n		cr := max(r, m.capRows)", ""),
+ ("V6 CDense.Grow in place one column too far","mat/cdense.go","	case r > m.capRows || c > m.capCols:","	case r > m.capRows || c > m.capCols+1:", ""),
+ ("V7 GrowSym in place one too far","mat/symmetric.go","	if s.IsEmpty() || n > s.cap {","	if s.IsEmpty() || n > s.cap+1 {", ""),
+ ("V8 sliceVec offset uses i without inc","mat/vector.go","			Data: v.mat.Data[i*v.mat.Inc : (k-1)*v.mat.Inc+1],","			Data: v.mat.Data[i : (k-1)*v.mat.Inc+1],", ""),
+ ("V9 VecDense.Cap ignores the increment","mat/vector.go","	return (cap(v.mat.Data)-1)/v.mat.Inc + 1","	return cap(v.mat.Data)", ""),
+ ("V10 Dense.slice accepts l == cap+1 for views","mat/dense.go","l <= j || mc < l {","l <= j || mc+1 < l {", ""),
+ ("V11 TriDense.sliceTri understated cap","mat/triangular.go","	v.cap = t.cap - i\n","	v.cap = k - i\n", ""),
+ ("V12 CDense.reuseAsNonZeroed badCap check inverted on cols","mat/cdense.go","func (m *CDense) reuseAsNonZeroed(r, c int) {\n	if m.mat.Rows > m.capRows || m.mat.Cols > m.capCols {","func (m *CDense) reuseAsNonZeroed(r, c int) {\n	if m.mat.Rows > m.capRows || m.mat.Cols >= m.capCols {", ""),
 ]
 only = sys.argv[1:] 
 env = dict(os.environ, GOFLAGS='-mod=mod', GOPROXY='off', GOSUMDB='off', GOTOOLCHAIN='local', VK_KNOWN='/verif/known_findings.jsonl', VK_FAILDIR='/var/tmp/c07m-fail')
